@@ -621,6 +621,13 @@ def run_c08(pid, tier, rep, deadline_s):
     rep.coverage = merge_cov(cov, {'states': totals['cases'], 'transitions': totals['checks'], 'traces_validated_against_impl': totals['cases'], 'samples': samples, 'evaluations': totals['cases'], 'distinct_nontrivial': extra.get('recovered', 0) + extra.get('recovery_failed', 0), 'bounds': bounds,
                                    'exhaustive': all(b['completed'] for b in bounds), 'counters': extra, 'rule': 'Compiled part: four ordinary DSL grammars with error rules on every input up to the bound over their terminals, space and a foreign byte; result, value tree and every message (with position) must equal the documented driver + recovery on a reference LR(1) table.'})
 
+def run_c09(pid, tier, rep, deadline_s):
+    q = tier == 'quick'
+    run_gram(pid, tier, rep, deadline_s); cov = dict(rep.coverage)
+    totals, samples, bounds, extra = run_progs(pid, rep, [dict(name='c09m', src='c09_messages.cpp', args=[4 if q else 5], compilers=['g++'] if q else ['g++', 'clang++'], label='compiled grammar with every kind of term (regex with/without custom name, string, typed, char, non-printable char) x inputs<=%d over 10 bytes' % (4 if q else 5))], deadline_s)
+    rep.coverage = merge_cov(cov, {'states': totals['cases'], 'transitions': totals['checks'], 'traces_validated_against_impl': totals['cases'], 'samples': samples, 'evaluations': totals['cases'], 'distinct_nontrivial': extra.get('lexical_errors', 0) + extra.get('syntax_errors', 0), 'bounds': bounds,
+                                   'exhaustive': all(b['completed'] for b in bounds), 'counters': extra, 'rule': 'Compiled part: one grammar whose terms cover every term kind and naming rule, on every input up to the bound over its bytes plus space, newline and a foreign byte; the message stream must be exactly what the documented driver on a reference table predicts (term names, positions, single report, silence on success).'})
+
 def run_c02(pid, tier, rep, deadline_s):
     q = tier == 'quick'
     run_gram(pid, tier, rep, deadline_s); cov = dict(rep.coverage)
@@ -729,6 +736,7 @@ def main(argv):
         deadline = QUICK_DEADLINE if tier == 'quick' else THOROUGH_DEADLINE
         if pid == 'C08': run_c08(pid, tier, rep, deadline)
         elif pid == 'C02': run_c02(pid, tier, rep, deadline)
+        elif pid == 'C09': run_c09(pid, tier, rep, deadline)
         elif pid in GRAM_PROPS: run_gram(pid, tier, rep, deadline)
         elif pid == 'C17': run_c17(pid, tier, rep, deadline)
         elif pid in RX_PROPS: run_rx(pid, tier, rep, deadline)
